@@ -15,7 +15,14 @@ import time
 import fractions
 from fractions import Fraction as RealFraction
 
+import sys
+
 import z3
+
+try:
+    sys.set_int_max_str_digits(0)  # nlsat models can carry rationals with thousands of digits
+except AttributeError:
+    pass
 
 Z1 = z3.RealVal(1)
 Z0 = z3.RealVal(0)
@@ -414,6 +421,22 @@ class SF(RealFraction):
             k = k.__index__()
         if not isinstance(k, int) and hasattr(k, "__index__"):
             k = k.__index__()  # numpy integers
+        if isinstance(k, float):
+            if k.is_integer():
+                k = int(k)
+            elif k > 0 and abs(1 / k - round(1 / k)) < 1e-12 and FLOAT_POLICY["mix"] == "real":
+                # x ** (1/p): the non-negative p-th root, introduced as a fresh variable y with y >= 0, y^p = x
+                p = int(round(1 / k))
+                ex = cur()
+                ROOTS[0] += 1
+                y = z3.Real(f"_root{ROOTS[0]}_{len(ex.log)}")
+                yp = Z1
+                for _ in range(p):
+                    yp = yp * y
+                ex.assume(z3.And(y >= 0, yp == s.e))
+                r = SRoot(y)
+                r.radicand, r.p = s, p
+                return r
         if not isinstance(k, int):
             raise HarnessError("symbolic ** non-int")
         if k < 0:
@@ -430,6 +453,8 @@ class SF(RealFraction):
         return s
 
     def __abs__(s):
+        if ABS_POLICY["fork"]:
+            return s if cur().branch(s.e >= 0) else SF(-s.e)
         return SF(z3.If(s.e >= 0, s.e, -s.e))
 
     # ---- comparisons (fork) -----
@@ -544,7 +569,19 @@ class SF(RealFraction):
 
 
 TAINT = {"float": 0}
+ABS_POLICY = {"fork": False}
+ROOTS = [0]
 INT_BOUND = [64]
+
+
+class SRoot(SF):
+    """y = x ** (1/p) introduced as a constrained fresh variable; remembers x so that y**p is x again"""
+    __slots__ = ("radicand", "p")
+
+    def __pow__(s, k):
+        if isinstance(k, int) and k == getattr(s, "p", None):
+            return s.radicand
+        return SF.__pow__(s, k)
 
 
 class _FracShimMeta(type):
@@ -896,6 +933,23 @@ class Ctx:
         m = self.ex.get_model()
         self.violations.append(Violation(label, detail, model_to_dict(m, self.vars), list(self.ex.script), self.path_index))
         return False
+
+    def require_ratio_le(self, a, b, label, detail=""):
+        """a <= b for rational-function terms whose denominator factors are positive on the path:
+        cross-multiplied to one polynomial inequality (sym mode); plain comparison in conc mode"""
+        if not self.sym or not (is_sym(a) or is_sym(b)):
+            return self.require(le(a, b), label, detail)
+        from .ratnorm import Normaliser
+        nz = Normaliser()
+        ea, eb = lift(a), lift(b)
+        na, da = nz.nd(ea)
+        nb, db = nz.nd(eb)
+        L = nz.lcm(da, db)
+        poly = nb * nz.dprod(nz.sub(L, db)) - na * nz.dprod(nz.sub(L, da))  # >= 0  <=>  a <= b  when L > 0
+        facs = [nz.to_z3(nz.F[k]) for k in L]
+        if all(self.ex.valid(f > 0) is None for f in facs):
+            return self.require(nz.to_z3(poly) >= 0, label, detail)
+        return self.require(le(a, b), label, detail)
 
     def fail(self, label, detail=""):
         return self.require(False, label, detail)
